@@ -61,7 +61,7 @@ fn api_of(a: usize) -> usize {
     }
 }
 
-const NREG: usize = 49;
+const NREG: usize = 65;
 const R_BLOCKED: usize = 6; // + flag index
 const R_XTX: usize = 10;
 const R_NC_SMALLER: usize = 11;
@@ -72,6 +72,9 @@ const R_DOT: usize = 15; // + kind*4 + method; Matrix·Matrix t_dot_t (18) means
 const R_DOT_TT_SCALAR: usize = 31;
 const R_DOT_TT_SQUARE: usize = 32;
 const R_DOT_NC: usize = 33; // + kind*4 + method
+/// Dot-trait products of integer data at other absolute scales (both operands are integers times a
+/// power of two): + kind*4 + method
+const R_DOT_SCALED: usize = 49;
 const KINDS: [&str; 4] = ["MM", "MV", "VM", "VV"];
 
 fn regime_name(r: usize) -> String {
@@ -90,7 +93,8 @@ fn regime_name(r: usize) -> String {
         15..=30 => format!("dot:{}:{}", KINDS[(r - 15) / 4], METHODS[(r - 15) % 4]),
         R_DOT_TT_SCALAR => "dot:MM:t_dot_t:scalar".into(),
         R_DOT_TT_SQUARE => "dot:MM:t_dot_t:square".into(),
-        _ => format!("dot-nonconf:{}:{}", KINDS[(r - 33) / 4], METHODS[(r - 33) % 4]),
+        33..=48 => format!("dot-nonconf:{}:{}", KINDS[(r - 33) / 4], METHODS[(r - 33) % 4]),
+        _ => format!("dot-scaled:{}:{}", KINDS[(r - R_DOT_SCALED) / 4], METHODS[(r - R_DOT_SCALED) % 4]),
     }
 }
 fn flag_index(ta: bool, tb: bool) -> usize {
@@ -114,13 +118,21 @@ fn flag_regime(ta: bool, tb: bool, m: usize, l: usize, n: usize) -> usize {
     }
 }
 
-const SEEN: [&str; 6] = ["data=int", "data=real", "dot-form=(S,T)", "dot-form=(S,&T)", "dot-form=(&S,T)", "dot-form=(&S,&T)"];
+const SEEN: [&str; 11] = [
+    "data=int", "data=real", "dot-form=(S,T)", "dot-form=(S,&T)", "dot-form=(&S,T)", "dot-form=(&S,&T)",
+    "dot-scaled:both-operands-below-2^-52", "dot-scaled:tiny-times-huge", "dot-scaled:mixed-scales", "dot-scaled:same-shape-different-operands", "dot-scaled:real-data",
+];
+const S_SC_TINY: usize = 6;
+const S_SC_TINYHUGE: usize = 7;
+const S_SC_MIXED: usize = 8;
+const S_SC_SAMESHAPE: usize = 9;
+const S_SC_REAL: usize = 10;
 
 struct Tally {
     cases: [u64; NREG],
     checks: Vec<[(u64, u64); NREG]>,
     first: Vec<(usize, usize, Value)>,
-    seen: [u64; 6],
+    seen: [u64; 11],
     distinct: Vec<u64>,
     worst: [[f64; 2]; 4],
     samples: Vec<Value>,
@@ -129,7 +141,7 @@ struct Tally {
 }
 impl Tally {
     fn new(lean: bool) -> Self {
-        Tally { cases: [0; NREG], checks: vec![[(0, 0); NREG]; ASSERTS.len()], first: Vec::new(), seen: [0; 6], distinct: Vec::new(), worst: [[-1.0; 2]; 4], samples: Vec::new(), bitwise: [0; 2], lean }
+        Tally { cases: [0; NREG], checks: vec![[(0, 0); NREG]; ASSERTS.len()], first: Vec::new(), seen: [0; 11], distinct: Vec::new(), worst: [[-1.0; 2]; 4], samples: Vec::new(), bitwise: [0; 2], lean }
     }
     fn case(&mut self, r: usize) {
         self.cases[r] += 1;
@@ -441,12 +453,19 @@ const VV: usize = 3;
 /// One Dot-trait call. `a` is stored ar×ac (a left Vector is 1×len), `b` is stored br×bc (a right
 /// Vector is len×1). `meth` 0..4 = dot, t_dot, dot_t, t_dot_t; `form` 0..4 = (S,T) (S,&T) (&S,T) (&S,&T).
 fn dot_case(t: &mut Tally, kind: usize, meth: usize, form: usize, a: &[f64], ar: usize, ac: usize, b: &[f64], br: usize, bc: usize, real: bool) {
+    dot_case_at(t, kind, meth, form, a, ar, ac, b, br, bc, real, false)
+}
+
+/// `scaled`: the operands are a conformable pair at an absolute scale other than O(1); such calls are
+/// filed under the `dot-scaled:*` regimes (one per operand kind and method).
+fn dot_case_at(t: &mut Tally, kind: usize, meth: usize, form: usize, a: &[f64], ar: usize, ac: usize, b: &[f64], br: usize, bc: usize, real: bool, scaled: bool) {
     let (ta, tb) = FLAGS[meth];
     // a transpose request on a promoted vector does nothing
     let ta_eff = ta && (kind == MM || kind == MV);
     let tb_eff = tb && (kind == MM || kind == VM);
     let e = define(a, ar, ac, ta_eff, b, br, bc, tb_eff, real);
     let r = match &e {
+        Some(_) if scaled => R_DOT_SCALED + kind * 4 + meth,
         // Matrix·Matrix t_dot_t is the only Dot method that reaches the both-transposed branch of matmul
         Some(e) if kind == MM && meth == 3 => {
             if e.m == e.l && e.l == e.n {
@@ -465,6 +484,9 @@ fn dot_case(t: &mut Tally, kind: usize, meth: usize, form: usize, a: &[f64], ar:
     t.case(r);
     t.seen[2 + form] += 1;
     t.distinct(&[4, r as u64, form as u64, ar as u64, ac as u64, br as u64, bc as u64, real as u64], ar * ac > 1 || br * bc > 1);
+    if scaled && ar == br && ac == bc && a != b {
+        t.seen[S_SC_SAMESHAPE] += 1;
+    }
     // result as (shape if a Matrix, flat data)
     let got: Result<(Option<[usize; 2]>, Vec<f64>), String> = match kind {
         MM => {
@@ -580,6 +602,77 @@ fn dot_point(t: &mut Tally, rng: &mut Rng, m: usize, l: usize, n: usize, forms: 
     }
 }
 
+/// The absolute scale of the operands is arbitrary: a pair of binary exponents (ka, kb) for the left and
+/// the right operand. A third of the draws puts both operands below 2^-52 (k in -70..=-54), a third pairs a
+/// tiny with a huge operand, the rest mixes freely; integers (|a| <= 50) times 2^k keep every product and
+/// partial sum exact (|ka + kb| <= 400, far from over-/underflow).
+fn scale_pair(t: &mut Tally, rng: &mut Rng) -> (i32, i32) {
+    const LADDER: [i32; 11] = [-200, -70, -60, -53, -52, -30, 0, 20, 60, 100, 200];
+    match rng.usize(0, 2) {
+        0 => {
+            t.seen[S_SC_TINY] += 1;
+            (rng.int(-70, -54) as i32, rng.int(-70, -54) as i32)
+        }
+        1 => {
+            t.seen[S_SC_TINYHUGE] += 1;
+            let k = rng.int(54, 200) as i32;
+            let k2 = rng.int(54, 200) as i32;
+            if rng.bool() {
+                (-k, k2)
+            } else {
+                (k, -k2)
+            }
+        }
+        _ => {
+            t.seen[S_SC_MIXED] += 1;
+            (*rng.choose(&LADDER), *rng.choose(&LADDER))
+        }
+    }
+}
+
+/// The Dot-trait calls of the cube point (m, l, n) once more, on two *different* operands that are
+/// integers times 2^ka resp. 2^kb (exact oracle), or — `real` — N(0.25, 3²) reals times those powers
+/// (the bound γ_l·Σ|a||b| scales along). Whenever the method's two stored shapes coincide (m = n for
+/// t_dot and dot_t, m = l = n for dot and t_dot_t; always for two vectors) this is a pair of distinct
+/// operands of identical shape.
+fn dot_point_scaled(t: &mut Tally, rng: &mut Rng, m: usize, l: usize, n: usize, forms: &[usize], real: bool) {
+    for meth in 0..4 {
+        let (ta, tb) = FLAGS[meth];
+        let (ar, ac) = if ta { (l, m) } else { (m, l) };
+        let (br, bc) = if tb { (n, l) } else { (l, n) };
+        for &form0 in forms {
+            let form = if forms.len() == 1 { (form0 + meth) % 4 } else { form0 };
+            let (ka, kb) = scale_pair(t, rng);
+            let (fa, fb) = (2f64.powi(ka), 2f64.powi(kb));
+            if real {
+                t.seen[S_SC_REAL] += 1;
+            }
+            let fill = |rng: &mut Rng, k: usize, f: f64| -> Vec<f64> {
+                if real {
+                    (0..k).map(|_| (rng.normal() * 3.0 + 0.25) * f).collect()
+                } else {
+                    rng.ints(k, -50, 50).iter().map(|v| v * f).collect()
+                }
+            };
+            let a = fill(rng, ar * ac, fa);
+            let b = fill(rng, br * bc, fb);
+            dot_case_at(t, MM, meth, form, &a, ar, ac, &b, br, bc, real, true);
+            if n == 1 {
+                let v = fill(rng, l, fb);
+                dot_case_at(t, MV, meth, form, &a, ar, ac, &v, l, 1, real, true);
+            }
+            if m == 1 {
+                let v = fill(rng, l, fa);
+                dot_case_at(t, VM, meth, form, &v, 1, l, &b, br, bc, real, true);
+            }
+            if m == 1 && n == 1 {
+                let (x, y) = (fill(rng, l, fa), fill(rng, l, fb));
+                dot_case_at(t, VV, meth, form, &x, 1, l, &y, l, 1, real, true);
+            }
+        }
+    }
+}
+
 fn cube_point(cfg: &Cfg, t: &mut Tally, rng: &mut Rng, m: usize, l: usize, n: usize, fills: usize) {
     let maxd = m.max(l).max(n);
     for _ in 0..fills {
@@ -627,6 +720,7 @@ fn cube_point(cfg: &Cfg, t: &mut Tally, rng: &mut Rng, m: usize, l: usize, n: us
             dot_point(t, rng, m, l, n, &[(m + 2 * l + 3 * n) % 4], false, nc, !all);
         } else {
             dot_point(t, rng, m, l, n, &[0, 1, 2, 3], false, true, false);
+            dot_point_scaled(t, rng, m, l, n, &[0, 1, 2, 3], false);
         }
     }
 }
@@ -696,6 +790,11 @@ fn random_real(cfg: &Cfg, t: &mut Tally, rng: &mut Rng, i: usize) {
         let bi = rng.ints(br * bc, -50, 50);
         slice_case(t, &ai, ar, ac, &bi, br, bc, ta, tb, &bsizes[..1], false);
         dot_point(t, rng, dm, l, dn2, &[(form + 1) % 4], false, i % 4 == 0, false);
+        // the same at other absolute scales; every other case with coinciding outer dimensions, so that
+        // t_dot / dot_t meet two different operands of one shape beyond the cube as well
+        let sn = if i % 2 == 0 { dm } else { dn2 };
+        dot_point_scaled(t, rng, dm, l, sn, &[(form + 2) % 4], false);
+        dot_point_scaled(t, rng, dm, l, sn, &[(form + 3) % 4], true);
     }
 }
 
@@ -711,6 +810,7 @@ pub fn run(cfg: &Cfg, rep: &mut Report) {
          non-trivial = m*l*n > 1; distinct by (api, regime, shapes, flags, block size / ownership form, data kind)"
     );
     rep.assume("entries are finite; integer entries |a| <= 50 with inner dimension <= 64 so every partial sum is exact; real entries are N(0.25, 3^2) (no overflow/underflow in products)");
+    rep.assume("dot-scaled regimes: Dot-trait products of two different operands that are integers (|a| <= 50) times 2^ka and 2^kb (exact: equality oracle) or N(0.25, 3^2) reals times those powers (bound gamma_l*sum|a||b|), ka, kb in -200..=200, a third of the pairs with both operands below 2^-52; not run under Miri");
     rep.assume("block size 0 is outside the property ('every block size >= 1')");
     rep.assume("zero-sized dimensions are outside the quantifier (1..=9, 1..=64)");
     rep.exhaustive = Some(!cfg.lite);
@@ -788,7 +888,14 @@ pub fn run(cfg: &Cfg, rep: &mut Report) {
         }
         rep.require(&regime_name(r), 1);
     }
-    for s in SEEN {
-        rep.require(s, 1);
+    for (i, s) in SEEN.iter().enumerate() {
+        if i < S_SC_TINY || !cfg.miri() {
+            rep.require(s, 1);
+        }
+    }
+    if !cfg.miri() {
+        for r in R_DOT_SCALED..R_DOT_SCALED + 16 {
+            rep.require(&regime_name(r), 1);
+        }
     }
 }
